@@ -177,6 +177,116 @@ def graph_replay(ctx, depth, nprod, budget, rng):
     return len(nodes), n
 
 
+
+# ------------------------------------------------------------------ gradient mode histories (JacGradMode.tla)
+def gradmode_replay(ctx, budget, rng):
+    """every action sequence of JacGradMode.tla that ends in a product, on real jac / hess operators: the operator is built
+    with recording on or off, products are taken in the mode the specification names, with or without an open substitution;
+    a product taken while recording carries a graph whose derivatives w.r.t. the point, the explicit and the object-held
+    parameter equal those of the dense reference product"""
+    c = dict(MaxProducts=2, ModeAtProduct=True)
+    t, cf = tlcmod.gen_mc(ctx.work, "JacGradMode", "MC_JGM", c, invariants=["GraphIffRecording"])
+    dot = os.path.join(ctx.work, "jgm.dot")
+    ctx.model_check(t, cf, workers=4, dump_dot=dot, label="JacGradMode graph", timeout=300)
+    nodes, inits, edges = tlcmod.parse_dot(dot)
+    os.remove(dot)
+    c2 = dict(c, ModeAtProduct=False)
+    t2, cf2 = tlcmod.gen_mc(ctx.work, "JacGradMode", "MC_JGM_dev", c2, invariants=["GraphIffRecording"])
+    ctx.expect_violation(t2, cf2, inv="GraphIffRecording", label="deviation ModeAtProduct", workers=4, timeout=300)
+    out = {}
+    for s, d, lab in edges:
+        out.setdefault(s, []).append((d, lab))
+    seqs = []
+
+    def walk(s, acts, depth):
+        for d, lab in out.get(s, []):
+            if lab.startswith("Toggle") and acts and acts[-1][0].startswith("Toggle"):
+                continue
+            a2 = acts + [(lab, d)]
+            if lab.startswith("Product"):
+                seqs.append(a2)
+            if depth > 1:
+                walk(d, a2, depth - 1)
+    for i0 in inits:
+        walk(i0, [("Init", i0)], 3)
+    rng.shuffle(seqs)
+    n = 0
+    W = None
+    for seq in seqs[:budget]:
+        built = bool(nodes[seq[0][1]]["built"])
+        for which in ("jac", "hess"):
+            n += 1
+            why = None
+            acts = ["built-recording" if built else "built-under-no_grad"]
+            rp = None
+            try:
+                with torch.set_grad_enabled(built):
+                    rp = JacReplayer(which, ctx.seed + 5)
+                cur = 0
+                val = p = None
+                for lab, d in seq[1:]:
+                    st = nodes[d]
+                    if lab.startswith("Toggle"):
+                        if st["sub"]:
+                            cm = rp.op.uselinopparams(rp.ys[1], rp.ths[1], rp.obs[1])
+                            cm.__enter__()
+                            rp.frames.append(cm)
+                            cur = 1
+                            acts.append("substitute")
+                        else:
+                            rp.frames.pop().__exit__(None, None, None)
+                            cur = 0
+                            acts.append("restore")
+                        continue
+                    rec = bool(st["last"]["rec"])
+                    acts.append("%s[%s]" % (st["last"]["p"], "recording" if rec else "no_grad"))
+                    with torch.set_grad_enabled(rec):
+                        p, val = rp.do(lab)
+                st = nodes[seq[-1][1]]
+                rec = bool(st["last"]["rec"])
+                y, th, A = rp.ys[cur], rp.ths[cur], rp.obs[cur]
+                if which == "jac":
+                    D = tjac(lambda yy: f_math(yy, th, A), y, create_graph=True)
+                else:
+                    D = thess(lambda yy: g_math(yy, th, A), y, create_graph=True)
+                exp = rp.expected(p, D)
+                if tuple(val.shape) != tuple(exp.shape):
+                    why = "shape %s, expected %s" % (tuple(val.shape), tuple(exp.shape))
+                elif not torch.allclose(val, exp, atol=1e-10, rtol=1e-9):
+                    why = "%s product differs from the dense %s by %.2e" % (p, which, float((val - exp).abs().max()))
+                elif bool(val.requires_grad) != bool(st["last"]["graph"]):
+                    why = "the product %s a graph, the specification says %s (recording at the product: %s, at construction: %s)" % (
+                        "carries" if val.requires_grad else "does not carry", st["last"]["graph"], rec, built)
+                elif rec:
+                    g = torch.Generator().manual_seed(11)
+                    Wt = torch.randn(exp.shape, generator=g, dtype=DT)
+                    got = torch.autograd.grad((val * Wt).sum(), (y, th, A), allow_unused=True, create_graph=True)
+                    ref = torch.autograd.grad((exp * Wt).sum(), (y, th, A), allow_unused=True, create_graph=True)
+                    for nm, a, b in zip(("the point", "the explicit parameter", "the object-held parameter"), got, ref):
+                        a0 = torch.zeros_like(b) if a is None else a
+                        if not torch.allclose(a0, b, atol=1e-9, rtol=1e-8):
+                            why = "derivative of the %s product w.r.t. %s differs from the dense reference by %.2e (max reference %.2e)" % (
+                                p, nm, float((a0 - b).abs().max()), float(b.abs().max()))
+                            break
+                    if why is None and got[0] is not None and got[0].requires_grad:
+                        g2 = torch.autograd.grad(got[0].sum(), (y,), allow_unused=True)[0]
+                        r2 = torch.autograd.grad(ref[0].sum(), (y,), allow_unused=True)[0]
+                        g2 = torch.zeros_like(y) if g2 is None else g2
+                        r2 = torch.zeros_like(y) if r2 is None else r2
+                        if not torch.allclose(g2, r2, atol=1e-8, rtol=1e-7):
+                            why = "second derivative of the %s product w.r.t. the point differs from the dense reference by %.2e" % (p, float((g2 - r2).abs().max()))
+                    elif why is None and bool(ref[0].requires_grad) and float(torch.autograd.grad(ref[0].sum(), (y,), allow_unused=True)[0].abs().max()) > 1e-9:
+                        why = "the first derivative of the %s product w.r.t. the point carries no graph although recording is on" % p
+            except Exception as e:
+                why = "%s: %s" % (type(e).__name__, str(e)[:160])
+            finally:
+                if rp is not None:
+                    rp.close()
+            ctx.case(key=("gradmode", which, tuple(acts)), sample={"operator": which, "actions": acts} if n % 200 == 1 else None)
+            if why:
+                ctx.violation("jacgradmode/%s/%s/%s" % (which, acts[0], p), "%s operator, %s: %s" % (which, acts, why), {"which": which, "actions": acts})
+    return len(nodes), n, len(seqs)
+
 # ------------------------------------------------------------------ case table
 def table(ctx, thorough):
     n = 0
@@ -295,14 +405,17 @@ def run(ctx):
         warnings.simplefilter("ignore")
         nn_, ne = graph_replay(ctx, 2, 2 if not thorough else 3, 400 if not thorough else 6000, rng)
         nt = table(ctx, thorough)
-    ctx.replayed = ne
-    ctx.notes.update(jaccache_states=nn_, product_edges_replayed=ne, table_cases=nt)
+        gm_states, gm_n, gm_all = gradmode_replay(ctx, 150 if not thorough else 10 ** 6, rng)
+    ctx.replayed = ne + gm_n
+    ctx.notes.update(jaccache_states=nn_, product_edges_replayed=ne, table_cases=nt, gradmode_states=gm_states, gradmode_sequences_replayed=gm_n, gradmode_sequences=gm_all)
     ctx.assumptions += [
         "three distinct-valued tensors per identity for the point, the explicit and the object-held parameter: a product taken at the wrong tensors differs numerically",
         "dense references: torch.autograd.functional.jacobian / hessian of the same mathematics written without xitorch",
+        "gradient-mode histories: every action sequence of JacGradMode.tla with at most three actions that ends in a product (quick: seeded subset)",
         "TLC, SANY"]
     return ctx.finish(
         rule="case = (operator kind, action sequence ending in a product) for the product edges TLC enumerates (quick: seeded subset); "
+             "(operator kind, construction mode, gradient-mode history ending in a product); "
              "(representation, jac|hess, product) with first and second derivatives; (index selection); (non-differentiable argument)")
 
 
